@@ -33,7 +33,7 @@ ASSUMPTIONS = [
 ]
 SETTINGS: Dict[str, Dict[str, Any]] = {
     "quick": {"cases": 1000, "cli_cases": 32, "budget_s": 50, "minimums": {"windows_checked": 3000, "nontrivial": 600, "bound_on_transaction_date": 800, "cli_pairs": 4, "cli_cases_with_from_date_after_a_method_change": 4}},
-    "thorough": {"cases": 40000, "cli_cases": 200, "budget_s": 420, "minimums": {"windows_checked": 100000, "nontrivial": 30000, "bound_on_transaction_date": 40000, "cli_pairs": 100, "cli_cases_with_from_date_after_a_method_change": 25}},
+    "thorough": {"cases": 40000, "cli_cases": 200, "budget_s": 420, "minimums": {"windows_checked": 60000, "nontrivial": 18000, "bound_on_transaction_date": 24000, "cli_pairs": 60, "cli_cases_with_from_date_after_a_method_change": 15}},
 }
 PROFILES = [
     Profile(max_events=16, min_events=5, gap_style="medium"),
